@@ -33,7 +33,7 @@ def cases(draw, tier):
                              max_subgraphs=3, reuse_const=False,
                              ops=[o for o in G.ALL_OPS]))
   names = engine.op_out_names(mspec)
-  pool = R.STATIC_CFGS * 3 + R.FLOAT_COMPUTE_CFGS
+  pool = R.STATIC_CFGS * 3 + R.FLOAT_COMPUTE_CFGS + [(R.FLOATCAST, R.FP16)] * 3
   rules = draw(R.rules_for(names, engine.ops_present(mspec), max_rules=4,
                            cfg_pool=pool, allow_skip=False,
                            regex_pool=R.regex_alphabet(names)))
